@@ -498,6 +498,59 @@ fn consume<T: Val, V: ExactSizeIterator<Item = T>>(mut values: V, b: u64, k: u64
             });
             return (taken, 0);
         }
+        "nextnth" => {
+            // a partly consumed chunk, then a jump that may go beyond what is left
+            if let Some(x) = values.next() {
+                taken.push((Some(b), x.value()));
+                kept.push(x);
+                if let Some(y) = values.nth(k as usize) {
+                    taken.push((Some(b.wrapping_add(k + 1)), y.value()));
+                    kept.push(y);
+                }
+            }
+        }
+        "nextskip" => {
+            if let Some(x) = values.next() {
+                taken.push((Some(b), x.value()));
+                kept.push(x);
+                let mut s = values.skip(k as usize);
+                if let Some(y) = s.next() {
+                    taken.push((Some(b.wrapping_add(k + 1)), y.value()));
+                    kept.push(y);
+                }
+                drop(s);
+            }
+            return (taken, 0);
+        }
+        "nextstep" => {
+            if let Some(x) = values.next() {
+                taken.push((Some(b), x.value()));
+                kept.push(x);
+                let mut i = 1u64;
+                for y in values.step_by(3) {
+                    taken.push((Some(b.wrapping_add(i)), y.value()));
+                    kept.push(y);
+                    i += 3;
+                }
+            }
+            return (taken, 0);
+        }
+        "foldpanic" => {
+            // internal iteration of the chunk by a closure that panics at its k-th element, which it owns by then
+            let mut i = 0u64;
+            let r = std::panic::catch_unwind(std::panic::AssertUnwindSafe(|| {
+                values.fold((), |_, x| {
+                    taken.push((Some(b.wrapping_add(i)), x.value()));
+                    kept.push(x);
+                    if i == k {
+                        panic!("probe: injected panic of a closure that folds a chunk");
+                    }
+                    i += 1;
+                })
+            }));
+            let _ = r;
+            return (taken, 0);
+        }
         "stepby" => {
             let mut i = 0u64;
             for x in values.step_by(2) {
